@@ -68,6 +68,8 @@ type loopInfo struct {
 }
 
 type summarizer struct {
+	callRegion int   // inlined callee: region of the call site in the caller (-1 for a root)
+	callGuard  *Term // inlined callee: path condition of the call site within that region
 	p          *Program
 	f          *ssa.Function
 	loops      []*loopInfo
@@ -87,9 +89,11 @@ type summarizer struct {
 
 func Summarize(p *Program, f *ssa.Function) *Summary {
 	s := newSummarizer(p, f)
+	s.callRegion = -1
 	if f.Blocks == nil {
 		return s.sum
 	}
+	s.ord.nextLoop = len(s.loops)
 	s.collect()
 	return s.sum
 }
@@ -144,6 +148,8 @@ type ordinals struct {
 	dynCount    map[string]int
 	clos        map[*ssa.Function]int
 	allocByType map[string]int
+	nextLoop    int           // next free global loop id (root loops come first)
+	subs        []*summarizer // inlined callees that contain loops, in order of their loop ids
 	closList    []*ssa.Function
 }
 
@@ -1330,14 +1336,42 @@ func (s *summarizer) inlineOf(x *ssa.Call) *summarizer {
 				sub.subst[prm] = s.term(x.Common().Args[i])
 			}
 		}
+		sub.callRegion = s.regionID(x.Block())
+		sub.callGuard = s.pc(x.Block())
+		if l := s.loopOf[x.Block()]; l != nil && l.header == x.Block() {
+			sub.callGuard = tTrue()
+		}
+		if s.callGuard != nil && s.loopOf[x.Block()] == nil {
+			// a call at the top level of an inlined callee happens under that callee's own call guard
+			sub.callGuard = simplifyBool(tAnd(s.callGuard, sub.callGuard))
+		}
+		if len(sub.loops) > 0 {
+			// the callee's loops join the caller's: globally unique ids, summaries appended by the root
+			for _, l := range sub.loops {
+				l.id += s.ord.nextLoop
+			}
+			s.ord.nextLoop += len(sub.loops)
+			s.ord.subs = append(s.ord.subs, sub)
+		}
 	}
 	s.inlined[x] = sub
 	return sub
 }
 
 func (s *summarizer) shouldInline(g *ssa.Function) bool {
-	if g.Blocks == nil || s.depth >= maxInlineDepth || len(loopHeaders(g)) > 0 {
+	if g.Blocks == nil || s.depth >= maxInlineDepth {
 		return false
+	}
+	if heads := loopHeaders(g); len(heads) > 0 {
+		// a callee with loops is expanded only when every return lies outside its loops (its results are then plain
+		// terms over the loop-carried values); search loops with an early return stay calls
+		for _, h := range heads {
+			for b := range loopBlocks(h) {
+				if _, isRet := b.Instrs[len(b.Instrs)-1].(*ssa.Return); isRet {
+					return false
+				}
+			}
+		}
 	}
 	for q := s; q != nil; q = q.parent {
 		if q.f == g {
@@ -1387,6 +1421,15 @@ func (s *summarizer) inlineResults() []*Term {
 // inlineEffects appends the callee's effects (guarded by the call site's guard) to the caller's list.
 func (s *summarizer) inlineEffects(region int, guard *Term, emit func(Effect)) {
 	for _, b := range s.f.Blocks {
+		if l := s.loopOf[b]; l != nil {
+			// inside one of the callee's own loops: the effect belongs to that loop, its guard is relative to the iteration
+			g := s.pc(b)
+			if l.header == b {
+				g = tTrue()
+			}
+			s.blockEffects(b, l.id, g, emit, nil)
+			continue
+		}
 		g := simplifyBool(tAnd(guard, s.pc(b)))
 		s.blockEffects(b, region, g, emit, nil)
 	}
@@ -1399,7 +1442,7 @@ func (s *summarizer) regionID(b *ssa.BasicBlock) int {
 	if l := s.loopOf[b]; l != nil {
 		return l.id
 	}
-	return -1
+	return s.callRegion
 }
 
 // blockEffects emits the effects of one block. onReturn (may be nil) receives function-level returns.
@@ -1486,7 +1529,24 @@ func (s *summarizer) collect() {
 		s.sum.Results = append(s.sum.Results, res)
 	}
 	for _, l := range s.loops {
-		ls := &LoopSum{ID: l.id, Parent: -1, Pos: l.header.Instrs[0].Pos()}
+		s.sum.Loops = append(s.sum.Loops, s.loopSummary(l))
+	}
+	// loops of inlined callees (the list may grow while their summaries are built)
+	for i := 0; i < len(s.ord.subs); i++ {
+		sub := s.ord.subs[i]
+		for _, l := range sub.loops {
+			s.sum.Loops = append(s.sum.Loops, sub.loopSummary(l))
+		}
+	}
+	s.sum.Closures = append([]*ssa.Function{}, s.ord.closList...)
+	canonicalLoopOrder(s.sum)
+	canonicaliseSequences(s.sum)
+}
+
+// loopSummary: condition, entry, range operand, loop-carried values and early exits of one loop.
+func (s *summarizer) loopSummary(l *loopInfo) *LoopSum {
+	{
+		ls := &LoopSum{ID: l.id, Parent: s.callRegion, Pos: l.header.Instrs[0].Pos()}
 		if l.parent != nil {
 			ls.Parent = l.parent.id
 		}
@@ -1501,6 +1561,9 @@ func (s *summarizer) collect() {
 			ls.Cond = tTrue()
 		}
 		ls.Entry = simplifyBool(s.pc(h))
+		if s.callGuard != nil && l.parent == nil {
+			ls.Entry = simplifyBool(tAnd(s.callGuard, ls.Entry))
+		}
 		for _, in := range h.Instrs {
 			switch x := in.(type) {
 			case *ssa.Next:
@@ -1550,11 +1613,8 @@ func (s *summarizer) collect() {
 			}
 		}
 		// exits of nested loops that leave this loop as well are attributed to the nested loop's blocks (loopOf != l): covered there
-		s.sum.Loops = append(s.sum.Loops, ls)
+		return ls
 	}
-	s.sum.Closures = append([]*ssa.Function{}, s.ord.closList...)
-	canonicalLoopOrder(s.sum)
-	canonicaliseSequences(s.sum)
 }
 
 func (s *summarizer) backEdgePC(p *ssa.BasicBlock, l *loopInfo) *Term {
